@@ -180,7 +180,26 @@ func evalInfixParts(node *InfixExpression, env *Environment) Object {
 	return evalInfixExpression(node.Operator, left, right)
 }
 
+var comparatorOperators = map[string]bool{"=": true, "<>": true, "<": true, "<=": true, ">": true, ">=": true}
+
+// isConditionExpression reports whether the expression is itself a condition (not an operand)
+func isConditionExpression(expr Expression) bool {
+	switch e := expr.(type) {
+	case *InfixExpression:
+		return comparatorOperators[e.Operator] || e.Operator == AND || e.Operator == OR
+	case *PrefixExpression, *BetweenExpression, *InExpression:
+		return true
+	}
+
+	return false
+}
+
 func checkSyntaxInfixParts(node *InfixExpression) Object {
+	if comparatorOperators[node.Operator] && (isConditionExpression(node.Left) || isConditionExpression(node.Right)) {
+		// 'a = b = c': the operands of a comparator are operands, not conditions
+		return newError(syntaxErrorTemplate, node.Operator)
+	}
+
 	isLeftIdentifier := isExpressionIdentifier(node.Left)
 	isRightIdentifier := isExpressionIdentifier(node.Right)
 	_, operatorIsKeyword := keywords[node.Operator]
